@@ -21,6 +21,7 @@ func init() {
 			c20R2(c, "C20.R2")
 			c20R3(c, "C20.R3")
 			c20R4(c, "C20.R4")
+			ruleMetaSlot(c, "C20.R6") // "reverting the meta page immediately after a commit yields the previously committed state": commits alternate slots, so the other page IS the previous state
 			ruleChecksumAfterMutation(c, "C20.R5", 5) // revert copies the OTHER meta page: it restores a valid state only if every writer of meta pages (commit, init, backup, surgery) leaves both pages checksummed after their last change
 		},
 	})
